@@ -55,9 +55,22 @@ def _keyform(form, n, k):
         return format(k, '0%db' % n), {}
     if form == 'bytes':  # only when n % 8 == 0
         return k.to_bytes(n // 8, 'big'), {}
+    # forms whose text is longer than the key although the VALUE fits the width (the only way to give a 15-bit key as bytes);
+    # the library takes their integer value - it may also refuse them, but it must never store another key (see check)
+    if form == 'bytes-ceil':
+        return k.to_bytes((n + 7) // 8, 'big'), {}
+    if form == 'bytes-long':
+        return k.to_bytes((n + 7) // 8 + 1 + k % 3, 'big'), {}
+    if form == 'bits-long':
+        return '0' * (1 + k % 9) + format(k, '0%db' % n), {}
+    if form == 'bits-short':   # int(key, 2) semantics: leading zeros may be left out
+        return format(k, 'b'), {}
     if form == 'address':  # n == 267, k encodes (wc, hash)
         return Address(((k >> 256) % 256 - 128, (k % (1 << 256)).to_bytes(32, 'big'))), {}
     raise ValueError(form)
+
+
+LOOSE_FORMS = ('bytes-ceil', 'bytes-long', 'bits-long', 'bits-short')
 
 
 def _intkey(form, n, k):
@@ -102,6 +115,17 @@ def _after_prefix(cell):
     return s
 
 
+def _inline_after_prefix(cell):
+    from pytoniq_core.boc.builder import Builder
+    o1 = Builder().store_uint(0xABC, 12).end_cell()
+    o2 = Builder().store_uint(0xDEF, 12).store_ref(o1).end_cell()
+    s = Builder().store_ref(o1).store_uint(21, 5).store_ref(o2).store_cell(cell).end_cell().begin_parse()
+    s.load_ref()
+    s.load_uint(5)
+    s.load_ref()
+    return s
+
+
 def check(case):
     from pytoniq_core.boc.hashmap.hashmap import HashMap
     from pytoniq_core.boc.builder import Builder
@@ -113,6 +137,8 @@ def check(case):
         key, kw = _keyform(form, n, k)
         val, cmpv = _val(vkind, v)
         ok, r = call(hm.set, key, val, **kw)
+        if not ok and form in LOOSE_FORMS and not (form == 'bytes-ceil' and n % 8 == 0):
+            ok, r = call(hm.set, k, val)           # refusing an over-long spelling is fine; the key is then given as an int
         if not ok:
             return Fail(f'set-raises-on-valid-key/{form}', f'{exc_sig(r)}: {r!r} n={n} key={k}')
         model[_intkey(form, n, k)] = cmpv
@@ -146,6 +172,10 @@ def check(case):
         'load_dict@offset': lambda: _after_prefix(cell).load_dict(n, value_deserializer=des),
         'preload_dict@offset': lambda: _after_prefix(cell).preload_dict(n, value_deserializer=des),
     }
+    if len(cell.bits) + 5 <= 1023 and len(cell.refs) + 2 <= 4:
+        # the root edge stored inline (`Hashmap n X`, as in validators#11) after fields the caller has already read
+        readers['load_hashmap@inline-after-consumed-refs'] = lambda: _inline_after_prefix(cell).load_hashmap(n, value_deserializer=des)
+        readers['HashMap.parse@inline-after-consumed-refs'] = lambda: HashMap.parse(_inline_after_prefix(cell), n, None, des)
     for name, rd in readers.items():
         ok, got = call(rd)
         if not ok:
@@ -234,7 +264,7 @@ def st_case(draw):
     n = draw(st.one_of(st.sampled_from(WIDTHS), st.integers(1, 1023)))
     vkind = draw(st.sampled_from(['uint', 'coins', 'cell', 'addr']))
     forms = ['int', 'bits'] + (['bytes'] if n % 8 == 0 else []) + (['address'] if n == 267 else [])
-    form = draw(st.sampled_from(forms))
+    form = draw(st.sampled_from(forms + forms + list(LOOSE_FORMS)))
     # leaf must fit in a cell: label (<= n + ~12 bits) + value; addresses take 267 bits
     vbits = {'uint': 32, 'coins': 36, 'cell': 0, 'addr': 267}[vkind]
     if n + 12 + vbits > 1023 and draw(st.integers(0, 9)):
